@@ -204,6 +204,88 @@ fn apply_edit(text: &str, edit: &Value) -> Option<String> {
 
 // ------------------------------------------------------------------------------------------
 
+
+// ------------------------------------------------------------------------------------------
+// oracle 5: hover shows the analysis sets (node found by the harness's own walk over the public Cst API)
+
+pub struct HoverExpect {
+    pub lines: Vec<String>,
+    pub range: Value,
+}
+
+pub fn expected_hover(text: &str, offset: usize) -> Option<Option<HoverExpect>> {
+    use lelwel::frontend::ast::{AstNode, Regex, RuleDecl};
+    use lelwel::frontend::parser::{Node, NodeRef};
+    let t = text.to_string();
+    std::panic::catch_unwind(move || {
+        let mut diags = vec![];
+        let cst = lelwel::frontend::parser::Parser::new(&t, &mut diags).parse(&mut diags);
+        let sema = lelwel::frontend::sema::SemanticPass::run(&cst, &mut diags);
+        // innermost rule node whose span contains the offset
+        let mut cur = NodeRef::ROOT;
+        let mut found: Option<NodeRef> = None;
+        loop {
+            let mut next = None;
+            for c in cst.children(cur) {
+                if let Node::Rule(..) = cst.get(c) {
+                    let sp = cst.span(c);
+                    if sp.start <= offset && offset < sp.end {
+                        next = Some(c);
+                        break;
+                    }
+                }
+            }
+            match next {
+                Some(n) => {
+                    found = Some(n);
+                    cur = n;
+                }
+                None => break,
+            }
+        }
+        let node = found?;
+        let fmt = |m: &std::collections::HashMap<NodeRef, std::collections::BTreeSet<lelwel::frontend::sema::TokenName<'_>>, rustc_hash::FxBuildHasher>, id: NodeRef| -> String {
+            match m.get(&id) {
+                None => "{}".to_string(),
+                Some(s) => {
+                    let names: Vec<String> = s.iter().map(|t| t.0.to_string()).filter(|n| n == "EOF" || !n.starts_with("EOF")).collect();
+                    format!("{{{}}}", names.join(", "))
+                }
+            }
+        };
+        let (set_node, with_recovery) = if let Some(r) = Regex::cast(&cst, node) {
+            (r.syntax(), matches!(r, Regex::Star(_) | Regex::Plus(_) | Regex::Optional(_)))
+        } else if let Some(rule) = RuleDecl::cast(&cst, node) {
+            (rule.regex(&cst)?.syntax(), false)
+        } else {
+            return None;
+        };
+        let mut lines = vec![
+            format!("**First:** {}", fmt(&sema.first_sets, set_node)),
+            format!("**Follow:** {}", fmt(&sema.follow_sets, set_node)),
+            format!("**Predict:** {}", fmt(&sema.predict_sets, set_node)),
+        ];
+        if with_recovery {
+            lines.push(format!("**Recovery:** {}", fmt(&sema.recovery_sets, set_node)));
+        }
+        Some(HoverExpect { lines, range: range_json(&t, &cst.span(node)) })
+    })
+    .ok()
+}
+
+fn pos_le(a: &Value, b: &Value) -> bool {
+    (a["line"].as_u64().unwrap_or(0), a["character"].as_u64().unwrap_or(0)) <= (b["line"].as_u64().unwrap_or(0), b["character"].as_u64().unwrap_or(0))
+}
+fn range_contains(r: &Value, line: u32, ch: u32) -> bool {
+    let p = json!({"line": line, "character": ch});
+    pos_le(&r["start"], &p) && pos_le(&p, &r["end"])
+}
+fn range_text(text: &str, r: &Value) -> Option<String> {
+    let s = pos_to_offset(text, r["start"]["line"].as_u64()? as u32, r["start"]["character"].as_u64()? as u32)?;
+    let e = pos_to_offset(text, r["end"]["line"].as_u64()? as u32, r["end"]["character"].as_u64()? as u32)?;
+    text.get(s..e).map(|x| x.to_string())
+}
+
 pub struct JudgeStats {
     pub requests_compared: usize,
     pub diagnostics_compared: usize,
@@ -343,6 +425,85 @@ pub fn judge(h: &History, out: &Outcome, stats: &mut JudgeStats) -> Vec<Violatio
                             detail: format!("step {i}: applying the returned edit(s) does not give format(latest text); answer {}", got.to_string().chars().take(200).collect::<String>()),
                             step: i,
                         });
+                    }
+                }
+                // 5. hover shows the analysis sets of the innermost node at the (clamped) position
+                if *q == Query::Hover && *class != PosClass::MidSurrogate {
+                    if let Some(off) = pos_to_offset(&text, *line, *ch) {
+                        if let Some(exp) = expected_hover(&text, off) {
+                            stats.hover_checked += 1;
+                            match (&exp, got.is_null()) {
+                                (None, true) => {}
+                                (None, false) => v.push(Violation { class: "hover_sets_wrong".into(), site: "answer_where_none_expected".into(), detail: format!("step {i}: hover at {line}:{ch} answered {} but no rule node is there", got.to_string().chars().take(160).collect::<String>()), step: i }),
+                                (Some(_), true) => {
+                                    if out.thread_panics == 0 {
+                                        v.push(Violation { class: "hover_sets_wrong".into(), site: "null_where_sets_expected".into(), detail: format!("step {i}: hover at {line}:{ch} answered null"), step: i })
+                                    }
+                                }
+                                (Some(e), false) => {
+                                    let md = got["contents"]["value"].as_str().unwrap_or("");
+                                    let missing: Vec<&String> = e.lines.iter().filter(|l| !md.split("\n\n").any(|part| part == l.as_str() || part == format!("---\n{l}") || part.ends_with(&format!("\n---\n{l}")))).collect();
+                                    if let Some(m) = missing.first() {
+                                        v.push(Violation { class: "hover_sets_wrong".into(), site: m.split(' ').next().unwrap_or("").trim_matches('*').trim_end_matches(':').to_string(), detail: format!("step {i}: hover at {line}:{ch} shows {md:?}; the analysis gives {m:?}"), step: i });
+                                    } else if got["range"] != e.range {
+                                        v.push(Violation { class: "hover_sets_wrong".into(), site: "range".into(), detail: format!("step {i}: hover range {} but the node spans {}", got["range"], e.range), step: i });
+                                    }
+                                }
+                            }
+                        }
+                    }
+                }
+                // 4. definition and references agree with each other and with the names in the text
+                if let Query::References { decl } = q {
+                    if *class != PosClass::MidSurrogate {
+                        let locs: Vec<Value> = got.as_array().cloned().unwrap_or_default().into_iter().filter(|l| l["uri"].as_str() == Some(uri.as_str())).collect();
+                        let clamped = pos_to_offset(&text, *line, *ch).map(|o| offset_to_pos(&text, o)).unwrap_or((*line, *ch));
+                        let mut decl_hits = 0;
+                        let mut decl_range: Option<Value> = None;
+                        for l in &locs {
+                            if range_contains(&l["range"], clamped.0, clamped.1) {
+                                decl_hits += 1;
+                                decl_range = Some(l["range"].clone());
+                            }
+                        }
+                        let others: Vec<&Value> = locs.iter().filter(|l| Some(&l["range"]) != decl_range.as_ref()).collect();
+                        if !others.is_empty() {
+                            stats.defref_checked += 1;
+                            let mut def_range: Option<Value> = decl_range.clone();
+                            for l in &others {
+                                let (sl, sc) = (l["range"]["start"]["line"].as_u64().unwrap_or(0) as u32, l["range"]["start"]["character"].as_u64().unwrap_or(0) as u32);
+                                match &*reference(uri, &text, &Query::Definition, sl, sc) {
+                                    RefAnswer::Result(d) => {
+                                        let dr = d["range"].clone();
+                                        if d.is_null() || !range_contains(&dr, clamped.0, clamped.1) {
+                                            v.push(Violation { class: "definition_references_disagree".into(), site: "reference_does_not_resolve_to_declaration".into(), detail: format!("step {i}: references at {line}:{ch} lists {} but go-to-definition from there gives {}", l["range"], d), step: i });
+                                            break;
+                                        }
+                                        def_range.get_or_insert(dr);
+                                    }
+                                    RefAnswer::Failed(_) => {}
+                                }
+                            }
+                            // the text under every reference is the declared name or one of its symbols
+                            if let Some(dt) = def_range.as_ref().and_then(|r| range_text(&text, r)) {
+                                let name: String = dt.chars().take_while(|c| c.is_alphanumeric() || *c == '_').collect();
+                                for l in &others {
+                                    if let Some(rt) = range_text(&text, &l["range"]) {
+                                        let ok = rt == name || (rt.starts_with('\'') && dt.contains(&rt));
+                                        if !ok {
+                                            v.push(Violation { class: "definition_references_disagree".into(), site: "reference_text_is_not_the_declared_name".into(), detail: format!("step {i}: reference {} covers {rt:?}, the declaration is {:?}", l["range"], dt.chars().take(60).collect::<String>()), step: i });
+                                            break;
+                                        }
+                                    }
+                                }
+                            }
+                            if *decl && decl_hits != 1 {
+                                v.push(Violation { class: "definition_references_disagree".into(), site: "declaration_not_exactly_once".into(), detail: format!("step {i}: with includeDeclaration the declaration appears {decl_hits} times in {}", got.to_string().chars().take(200).collect::<String>()), step: i });
+                            }
+                            if !*decl && decl_hits != 0 {
+                                v.push(Violation { class: "definition_references_disagree".into(), site: "declaration_listed_without_include".into(), detail: format!("step {i}"), step: i });
+                            }
+                        }
                     }
                 }
                 // 2. latest text: the answer equals the answer of a fresh session that only ever saw the latest text
